@@ -222,10 +222,20 @@ func refResponse(sc *Scenario, view *BackendView, resp *builtResponse) (msgs []p
 			frames, _ := parseFrames(resp.Body)
 			for _, fr := range frames {
 				if fr.Flags&2 != 0 {
+					p := fr.Payload
+					if fr.Flags&1 != 0 {
+						d, derr := decompressBytes(comp, p)
+						if derr != nil || comp == "" {
+							return m, false, "end frame does not inflate"
+						}
+						p = d
+					}
+					// any JSON object is an acceptable end-of-stream message (unknown keys are ignored)
 					var end connectEndJSON
-					if json.Unmarshal(fr.Payload, &end) != nil {
+					if json.Unmarshal(p, &end) != nil {
 						return m, false, "end frame corrupted"
 					}
+					break
 				}
 			}
 		}
